@@ -960,10 +960,16 @@ func TestVerifStandin_C17_Shards(t *testing.T) {
 	rng := rand.New(rand.NewSource(c17Seed()))
 	thorough := c17Thorough()
 	fails := c17NewFails(
-		"rc_shard_parse_encode", "rc_shard_zero_id", "rc_shard_deep_prefix", "rc_match_account", "rc_match_block",
-		"rc_child_parent", "rc_children_partition", "rc_convert_shard_ident", "rc_getparents",
-		"rc_getparents_split_of_full_shard", "rc_panic")
+		"rc_shard_parse_rejected", "rc_shard_encode", "rc_shard_mustparse", "rc_shard_zero_id_accepted", "rc_match_block_zero_shard",
+		"rc_match_account", "rc_match_block", "rc_match_block_symmetry", "rc_match_block_parent_child",
+		"rc_child_formula", "rc_parent_formula", "rc_child_bits", "rc_parent_bits", "rc_parent_of_child", "rc_child_of_parent",
+		"rc_children_partition", "rc_children_parse_rejected", "rc_convert_shard_ident",
+		"rc_panic_shard_parse", "rc_panic_shard_encode", "rc_panic_shard_zero_value", "rc_panic_match_account", "rc_panic_match_block",
+		"rc_panic_child_parent", "rc_panic_convert_shard_ident",
+		// outside the domain of the property (prefix lengths above 60; GetParents): logged, never failed
+		"info_deep_prefix", "info_getparents_mismatch", "info_getparents_split_of_full_shard", "info_getparents_panic")
 	var st c17Stat
+	defer st.print("c17_shards") // printed even when sub-tests fail
 	nPrefix, nAcc := 12, 6
 	if thorough {
 		nPrefix, nAcc = 100, 20
@@ -986,13 +992,18 @@ func TestVerifStandin_C17_Shards(t *testing.T) {
 	if p := c17Safe(func() {
 		st.note("shard|0")
 		if s, err := ParseShardID(0); err == nil {
-			fails.add("rc_shard_zero_id", "ParseShardID(0) accepted: %+v", s)
-		}
-		if ShardID.MatchBlockID(MustParseShardID(-1<<63), BlockID{Shard: 0}) {
-			fails.add("rc_shard_zero_id", "the full shard matches a block with the invalid shard id 0")
+			fails.add("rc_shard_zero_id_accepted", "ParseShardID(0) accepted: %+v", s)
 		}
 	}); p != "" {
-		fails.add("rc_panic", "ParseShardID(0): %s", p)
+		fails.add("rc_panic_shard_parse", "ParseShardID(0): %s", p)
+	}
+	if p := c17Safe(func() {
+		st.note("matchblock|0")
+		if ShardID.MatchBlockID(MustParseShardID(-1<<63), BlockID{Shard: 0}) {
+			fails.add("rc_match_block_zero_shard", "the full shard matches a block with the invalid shard id 0")
+		}
+	}); p != "" {
+		fails.add("rc_panic_match_block", "ShardID(full).MatchBlockID(shard 0): %s", p)
 	}
 	if p := c17Safe(func() {
 		st.note("shard|zero-value")
@@ -1001,42 +1012,44 @@ func TestVerifStandin_C17_Shards(t *testing.T) {
 		_ = zero.MatchAccountID(AccountID{})
 		_ = zero.MatchBlockID(BlockID{Shard: 1 << 63})
 	}); p != "" {
-		fails.add("rc_panic", "zero ShardID value: %s", p)
+		fails.add("rc_panic_shard_zero_value", "zero ShardID value (Encode / MatchAccountID / MatchBlockID): %s", p)
 	}
 
 	for l := 0; l <= 63; l++ {
-		// prefix lengths above 60 do not exist in TON (shard_pfx_bits:(#<= 60)): rejecting them is fine, handling them
-		// must be consistent
-		cause := func(c string) string {
-			if l > 60 {
-				return "rc_shard_deep_prefix"
+		// The property ranges over prefix lengths 0..60 (shard_pfx_bits:(#<= 60)). Longer prefixes, and the children of
+		// depth-60 shards, are exercised too but only reported as information.
+		upTo := func(max int, c string) string {
+			if l > max {
+				return "info_deep_prefix"
 			}
 			return c
 		}
+		cause := func(c string) string { return upTo(60, c) }      // about the shard itself or its parent
+		childCause := func(c string) string { return upTo(59, c) } // about its children
 		for _, prefix := range prefixesOf(l) {
 			id := c17ShardOf(prefix)
 			st.note(fmt.Sprintf("shard|%016x", id))
 			var sh ShardID
 			var err error
 			if p := c17Safe(func() { sh, err = ParseShardID(int64(id)) }); p != "" {
-				fails.add("rc_panic", "ParseShardID(%#016x): %s", id, p)
+				fails.add(cause("rc_panic_shard_parse"), "ParseShardID(%#016x) (prefix length %d): %s", id, l, p)
 				continue
 			}
 			if err != nil {
 				if l <= 60 {
-					fails.add("rc_shard_parse_encode", "ParseShardID(%#016x) (prefix length %d): %v", id, l, err)
+					fails.add("rc_shard_parse_rejected", "ParseShardID(%#016x) (prefix length %d): %v", id, l, err)
 				}
 				continue
 			}
 			if p := c17Safe(func() {
 				if enc := uint64(sh.Encode()); enc != id {
-					fails.add(cause("rc_shard_parse_encode"), "ParseShardID(%#016x).Encode() = %#016x (prefix length %d)", id, enc, l)
+					fails.add(cause("rc_shard_encode"), "ParseShardID(%#016x).Encode() = %#016x (prefix length %d)", id, enc, l)
 				}
-				if m, err := ParseShardID(int64(id)); err == nil && m != MustParseShardID(int64(id)) {
-					fails.add(cause("rc_shard_parse_encode"), "MustParseShardID(%#016x) differs from ParseShardID", id)
+				if m := MustParseShardID(int64(id)); m != sh {
+					fails.add(cause("rc_shard_mustparse"), "MustParseShardID(%#016x) differs from ParseShardID (prefix length %d)", id, l)
 				}
 			}); p != "" {
-				fails.add("rc_panic", "ShardID(%#016x).Encode: %s", id, p)
+				fails.add(cause("rc_panic_shard_encode"), "ShardID(%#016x).Encode / MustParseShardID (prefix length %d): %s", id, l, p)
 			}
 			// accounts
 			var accounts []AccountID
@@ -1061,7 +1074,7 @@ func TestVerifStandin_C17_Shards(t *testing.T) {
 				want := matchOracle(prefix, a)
 				var got bool
 				if p := c17Safe(func() { got = sh.MatchAccountID(a) }); p != "" {
-					fails.add("rc_panic", "ShardID(%#016x).MatchAccountID(%s): %s", id, c17Raw(a.Workchain, a.Address), p)
+					fails.add(cause("rc_panic_match_account"), "ShardID(%#016x).MatchAccountID(%s): %s", id, c17Raw(a.Workchain, a.Address), p)
 					continue
 				}
 				st.note(fmt.Sprintf("match|%016x|%x", id, a.Address))
@@ -1074,27 +1087,29 @@ func TestVerifStandin_C17_Shards(t *testing.T) {
 			if p := c17Safe(func() {
 				left, right := shardChild(id, true), shardChild(id, false)
 				if left != c17RefChild(id, true) || right != c17RefChild(id, false) {
-					fails.add("rc_child_parent", "shardChild(%#016x) = %#016x, %#016x; reference formula gives %#016x, %#016x", id, left, right, c17RefChild(id, true), c17RefChild(id, false))
+					fails.add(childCause("rc_child_formula"), "shardChild(%#016x) = %#016x, %#016x; reference formula gives %#016x, %#016x", id, left, right, c17RefChild(id, true), c17RefChild(id, false))
 				}
-				if par := shardParent(id); par != c17RefParent(id) {
-					fails.add("rc_child_parent", "shardParent(%#016x) = %#016x; reference formula gives %#016x", id, par, c17RefParent(id))
+				if l >= 1 {
+					if par := shardParent(id); par != c17RefParent(id) {
+						fails.add(cause("rc_parent_formula"), "shardParent(%#016x) = %#016x; reference formula gives %#016x", id, par, c17RefParent(id))
+					}
 				}
 				if l <= 62 {
 					wl, wr := c17ShardOf(prefix+"0"), c17ShardOf(prefix+"1")
 					if left != wl || right != wr {
-						fails.add(cause("rc_child_parent"), "shardChild(%#016x) (prefix %q) = %#016x, %#016x; want %#016x, %#016x", id, prefix, left, right, wl, wr)
+						fails.add(childCause("rc_child_bits"), "shardChild(%#016x) (prefix %q) = %#016x, %#016x; want %#016x, %#016x", id, prefix, left, right, wl, wr)
 					}
 					if pl, pr := shardParent(left), shardParent(right); pl != id || pr != id {
-						fails.add(cause("rc_child_parent"), "shardParent(shardChild(%#016x)) = %#016x (left), %#016x (right)", id, pl, pr)
+						fails.add(childCause("rc_parent_of_child"), "shardParent(shardChild(%#016x)) = %#016x (left), %#016x (right)", id, pl, pr)
 					}
 				}
 				if l >= 1 {
-					if par, want := shardParent(id), c17ShardOf(prefix[:l-1]); par != want {
-						fails.add(cause("rc_child_parent"), "shardParent(%#016x) (prefix %q) = %#016x, want %#016x", id, prefix, par, want)
-					}
 					par := shardParent(id)
+					if want := c17ShardOf(prefix[:l-1]); par != want {
+						fails.add(cause("rc_parent_bits"), "shardParent(%#016x) (prefix %q) = %#016x, want %#016x", id, prefix, par, want)
+					}
 					if c := shardChild(par, prefix[l-1] == '0'); c != id {
-						fails.add(cause("rc_child_parent"), "shardChild(shardParent(%#016x), left=%v) = %#016x", id, prefix[l-1] == '0', c)
+						fails.add(cause("rc_child_of_parent"), "shardChild(shardParent(%#016x), left=%v) = %#016x", id, prefix[l-1] == '0', c)
 					}
 				}
 				// children are disjoint and their union is the parent
@@ -1102,7 +1117,7 @@ func TestVerifStandin_C17_Shards(t *testing.T) {
 					ls, err1 := ParseShardID(int64(left))
 					rs, err2 := ParseShardID(int64(right))
 					if err1 != nil || err2 != nil {
-						fails.add("rc_children_partition", "children %#016x, %#016x of %#016x do not parse: %v %v", left, right, id, err1, err2)
+						fails.add("rc_children_parse_rejected", "children %#016x, %#016x of %#016x do not parse: %v %v", left, right, id, err1, err2)
 						return
 					}
 					for i, a := range accounts {
@@ -1115,11 +1130,11 @@ func TestVerifStandin_C17_Shards(t *testing.T) {
 					}
 					// parent and children intersect as blocks, the children do not intersect each other
 					if !sh.MatchBlockID(BlockID{Shard: left}) || !ls.MatchBlockID(BlockID{Shard: id}) || !rs.MatchBlockID(BlockID{Shard: id}) || ls.MatchBlockID(BlockID{Shard: right}) || rs.MatchBlockID(BlockID{Shard: left}) {
-						fails.add("rc_match_block", "MatchBlockID between %#016x and its children %#016x, %#016x is not parent/child consistent", id, left, right)
+						fails.add("rc_match_block_parent_child", "MatchBlockID between %#016x and its children %#016x, %#016x is not parent/child consistent", id, left, right)
 					}
 				}
 			}); p != "" {
-				fails.add("rc_panic", "shardChild / shardParent(%#016x): %s", id, p)
+				fails.add(childCause("rc_panic_child_parent"), "shardChild / shardParent(%#016x) (prefix length %d): %s", id, l, p)
 			}
 		}
 	}
@@ -1163,16 +1178,17 @@ func TestVerifStandin_C17_Shards(t *testing.T) {
 					}
 					// symmetric
 					if got := MustParseShardID(int64(id2)).MatchBlockID(BlockID{Shard: id1}); got != want {
-						fails.add("rc_match_block", "ShardID(%#016x).MatchBlockID(shard %#016x) = %v, want %v (symmetry)", id2, id1, got, want)
+						fails.add("rc_match_block_symmetry", "ShardID(%#016x).MatchBlockID(shard %#016x) = %v, want %v (symmetry)", id2, id1, got, want)
 					}
 				}); p != "" {
-					fails.add("rc_panic", "MatchBlockID %#016x / %#016x: %s", id1, id2, p)
+					fails.add("rc_panic_match_block", "MatchBlockID %#016x / %#016x: %s", id1, id2, p)
 				}
 			}
 		}
 	}
 
-	// convertShardIdent / GetParents: shard_ident$00 shard_pfx_bits:(#<= 60) workchain_id:int32 shard_prefix:uint64
+	// convertShardIdent: shard_ident$00 shard_pfx_bits:(#<= 60) workchain_id:int32 shard_prefix:uint64.
+	// GetParents is not part of the property: its results are compared with the same oracle but only logged.
 	for l := 0; l <= 60; l++ {
 		identPrefixes := prefixesOf(l)
 		if len(identPrefixes) > 4 {
@@ -1193,7 +1209,7 @@ func TestVerifStandin_C17_Shards(t *testing.T) {
 					fails.add("rc_convert_shard_ident", "convertShardIdent(pfx_bits=%d wc=%d prefix=%#016x) = %d, %#016x; want %d, %#016x", l, wc, rawPrefix, gw, gs, wc, id)
 				}
 			}); p != "" {
-				fails.add("rc_panic", "convertShardIdent(pfx_bits=%d prefix=%#016x): %s", l, rawPrefix, p)
+				fails.add("rc_panic_convert_shard_ident", "convertShardIdent(pfx_bits=%d prefix=%#016x): %s", l, rawPrefix, p)
 			}
 			ref := func(seq uint32) tlb.ExtBlkRef {
 				var r tlb.ExtBlkRef
@@ -1220,24 +1236,24 @@ func TestVerifStandin_C17_Shards(t *testing.T) {
 				var out []BlockIDExt
 				var err error
 				if p := c17Safe(func() { out, err = GetParents(info) }); p != "" {
-					fails.add("rc_panic", "GetParents(%s, shard %#016x): %s", what, id, p)
+					fails.add("info_getparents_panic", "GetParents(%s, shard %#016x): %s", what, id, p)
 					return nil, nil, false
 				}
 				return out, err, true
 			}
 			if out, err, ok := run("plain", false, false, one); ok {
 				if err != nil || len(out) != 1 || out[0] != want(id, r1) {
-					fails.add("rc_getparents", "GetParents(plain, wc %d shard %#016x) = %v, %v; want [%v]", wc, id, out, err, want(id, r1))
+					fails.add("info_getparents_mismatch", "GetParents(plain, wc %d shard %#016x) = %v, %v; want [%v]", wc, id, out, err, want(id, r1))
 				}
 			}
 			if out, err, ok := run("after split", true, false, one); ok {
 				if l == 0 {
-					// the full shard has no parent: an error, or at least never the invalid shard id 0
+					// the full shard has no parent; the library answers with the shard id 0 (which ParseShardID rejects)
 					if err == nil && (len(out) != 1 || out[0].Shard == 0) {
-						fails.add("rc_getparents_split_of_full_shard", "GetParents(after_split, shard %#016x with an empty prefix) = %v, nil: shard id 0 is not a shard (ParseShardID(0) is an error)", id, out)
+						fails.add("info_getparents_split_of_full_shard", "GetParents(after_split, shard %#016x with an empty prefix) = %v, nil: shard id 0 is not a shard (ParseShardID(0) is an error)", id, out)
 					}
 				} else if err != nil || len(out) != 1 || out[0] != want(c17ShardOf(prefix[:l-1]), r1) {
-					fails.add("rc_getparents", "GetParents(after_split, wc %d shard %#016x) = %v, %v; want [%v]", wc, id, out, err, want(c17ShardOf(prefix[:l-1]), r1))
+					fails.add("info_getparents_mismatch", "GetParents(after_split, wc %d shard %#016x) = %v, %v; want [%v]", wc, id, out, err, want(c17ShardOf(prefix[:l-1]), r1))
 				}
 			}
 			if out, err, ok := run("after merge", false, true, two); ok {
@@ -1246,19 +1262,18 @@ func TestVerifStandin_C17_Shards(t *testing.T) {
 					wl.Shard, wr.Shard = c17ShardOf(prefix+"0"), c17ShardOf(prefix+"1")
 				}
 				if err != nil || len(out) != 2 || out[0] != wl || out[1] != wr {
-					fails.add("rc_getparents", "GetParents(after_merge, wc %d shard %#016x) = %v, %v; want [%v %v]", wc, id, out, err, wl, wr)
+					fails.add("info_getparents_mismatch", "GetParents(after_merge, wc %d shard %#016x) = %v, %v; want [%v %v]", wc, id, out, err, wl, wr)
 				}
 			}
 			// the shape of prev must agree with after_merge: an error, never a panic (nil pointer of the other shape)
 			if out, err, ok := run("after merge with a single prev", false, true, one); ok && err == nil {
-				fails.add("rc_getparents", "GetParents(after_merge with prev_blk_info, shard %#016x) = %v, nil; want an error", id, out)
+				fails.add("info_getparents_mismatch", "GetParents(after_merge with prev_blk_info, shard %#016x) = %v, nil; want an error", id, out)
 			}
 			if out, err, ok := run("not after merge with two prevs", false, false, two); ok && err == nil {
-				fails.add("rc_getparents", "GetParents(not after_merge with prev_blks_info, shard %#016x) = %v, nil; want an error", id, out)
+				fails.add("info_getparents_mismatch", "GetParents(not after_merge with prev_blks_info, shard %#016x) = %v, nil; want an error", id, out)
 			}
 		}
 	}
 
 	fails.report(t)
-	st.print("c17_shards")
 }
